@@ -572,6 +572,15 @@ def d6(cx: Cx, ob: Ob) -> None:
     if not stores:
         ob.violate(init.qualname, init.where, "DuplicateValueError does not keep the list of clashing records", detail="not-stored")
     for ev, ctx in stores:
+        v_ = ev.b
+        if op(v_) == "call" and v_[1] == ("builtin", "sorted") and v_[2] == (("param", arg),):
+            # a sorted copy keeps every summary; without a key the summaries (NamedTuples holding Records) are
+            # compared element by element and, on a tie of the clashing prefix, Record < Record raises TypeError
+            if dict(v_[3]).get("key") is None:
+                ob.violate(init.qualname, where(init, ev.line), "DuplicateValueError sorts the summaries it is given without a key: two summaries for the same clashing prefix are compared through their Record objects, which are not orderable - TypeError instead of the duplicate error", witness="three records sharing one URI prefix", detail="unorderable")
+            continue
+        if op(v_) == "call" and v_[1] in (("builtin", "list"), ("builtin", "tuple")) and v_[2] == (("param", arg),):
+            continue
         if ev.b != ("param", arg):
             ob.violate(init.qualname, where(init, ev.line), f"DuplicateValueError stores `{show(ev.b)[:80]}` instead of the clashes it was given: some clashing records are not listed", witness="three records sharing one URI prefix: only the last pair survives, the first record is never named", detail="transformed")
         if [g for g in ctx.guards if g.kind == "guard"]:
@@ -643,3 +652,12 @@ def x1(cx: Cx, ob: Ob) -> None:
     from .c10 import check_no_aliasing
 
     check_no_aliasing(cx, ob)
+
+
+@obligation("C04-X16", "strictness is kept by add_record (shared with C05-D3/D5/D6): _match_record finds EVERY existing record an incoming record overlaps with (full comparison cover, complete scan), add_record rejects a record that overlaps several and _merge adds names by exact membership - otherwise add_prefix / add_record / chain hand one name to two records of a strictly built converter", floor=8)
+def x16(cx: Cx, ob: Ob) -> None:
+    from .c05 import check_match_record, check_merge, d3 as add_record_guards
+
+    check_match_record(cx, ob)
+    check_merge(cx, ob)
+    add_record_guards(cx, ob)
